@@ -114,6 +114,7 @@ class Tree:
         for c in node.get("children", []):
             cpath = f"{path}.{c['alias']}" if path else c["alias"]
             children.append((c, self._build(c, cpath)))
+            self.__dict__.setdefault("classes", {})[cpath] = children[-1][1]
 
         def __init__(self, **kw: Any) -> None:  # noqa: N807
             env.log("ctor", path)
